@@ -50,6 +50,10 @@ class TArr(SymArray):
     def unsqueeze(self, dim):
         return _t(_np.expand_dims(_o(self), dim))
 
+    def repeat_interleave(self, repeats, dim=None):
+        a = _o(self)
+        return _t(_np.repeat(a.reshape(-1) if dim is None else a, repeats, axis=(0 if dim is None else dim)))
+
     def expand(self, *sizes):
         shp = tuple(self.shape[i] if s == -1 else s for i, s in enumerate(sizes))
         return _t(_np.broadcast_to(_o(self), shp))
